@@ -35,6 +35,12 @@ def specStep (R : Nat) (m : SMap) : Op → SMap
 
 def specRun (R : Nat) (ops : List Op) : SMap := ops.foldl (specStep R) []
 
+/-- the abstract map after an operation that ended in its `nth` lock-free `String()` call (see `stepFault`) -/
+def specStepFault (m : SMap) (op : Op) (nth : Nat) : SMap :=
+  match op with
+  | .remove _ => m
+  | _ => if nth ≤ 1 then m else m.del op.node.repr
+
 /-- the repr an operation is about -/
 def Op.repr : Op → String
   | .add n => n.repr
